@@ -168,12 +168,7 @@ func (s *Sim) Close() {
 	s.Stats.SimTime = time.Since(s.start)
 	s.Stats.SchedHash = s.schedH
 	s.Stats.StateHash = s.stateH
-	h := fnv.New64a()
-	for _, l := range s.EvLog {
-		h.Write([]byte(l))
-		h.Write([]byte{'\n'})
-	}
-	s.Stats.LogHash = h.Sum64()
+	s.Stats.LogHash = canonicalLogHash(s.EvLog)
 }
 
 func (s *Sim) Logf(format string, a ...any) {
@@ -527,4 +522,51 @@ func (r *seedReader) Read(p []byte) (int, error) {
 		p[i] = byte(r.state >> (8 * uint(i%8)))
 	}
 	return len(p), nil
+}
+
+// canonicalLogHash hashes the event log modulo one thing the simulator does not own: Go's randomised map iteration
+// inside the code under test, which permutes the order in which a connection's subscriptions are cancelled at shutdown
+// (store.Run, SyncClient.disconnect range over maps). A maximal run of consecutive UNSUB routings of one connection is
+// therefore hashed as a set.
+func canonicalLogHash(log []string) uint64 {
+	h := fnv.New64a()
+	strip := func(l string) string { // drop the step number, keep time and event
+		if i := strings.Index(l, " "); i >= 0 {
+			return l[i+1:]
+		}
+		return l
+	}
+	isUnsub := func(l string) (string, bool) {
+		f := strings.Fields(strip(l))
+		if len(f) >= 4 && f[1] == "route" && f[3] == "UNSUB" {
+			return f[2], true
+		}
+		return "", false
+	}
+	for i := 0; i < len(log); {
+		if c, ok := isUnsub(log[i]); ok {
+			j := i
+			var run []string
+			for j < len(log) {
+				c2, ok2 := isUnsub(log[j])
+				if !ok2 || c2 != c {
+					break
+				}
+				f := strings.Fields(strip(log[j]))
+				run = append(run, strings.Join(f[:5], " "))
+				j++
+			}
+			sort.Strings(run)
+			for _, l := range run {
+				h.Write([]byte(l))
+				h.Write([]byte{'\n'})
+			}
+			i = j
+			continue
+		}
+		h.Write([]byte(log[i]))
+		h.Write([]byte{'\n'})
+		i++
+	}
+	return h.Sum64()
 }
